@@ -19,7 +19,7 @@ model-canon = what `Model.Input.handle` + the LTS step semantics of `Model.Input
 verdict = the property oracle (`Spec.InputEvents`, no panic, no wedge) on the implementation's result. -/
 namespace VaxisModel.Driver.C03
 open VaxisModel.Driver VaxisModel.Model.Input VaxisModel.Model.InputLoop
-open VaxisModel.Spec.InputEvents (Report UEvent specEvents mouseEvent)
+open VaxisModel.Spec.InputEvents (Report UEvent specEvents specInternal mouseEvent)
 
 def cps? (s : String) : Option (List Nat) :=
   if s = "-" ∨ s = "" then some [] else (s.splitOn ",").mapM (·.toNat?)
@@ -195,6 +195,16 @@ def mouseOracle (q : Seq) (impl : String) : Option String :=
     else none
   | _ => none
 
+def parseAnn (a : String) : Option (List String) :=
+  if a == "?" then none else if a == "-" then some [] else some (a.splitOn ",")
+
+/-- Name of an internal notification in the canonical event list. -/
+def internalName (e : String) : Option String :=
+  if e.startsWith "i/" then some ((e.drop 2).toString)
+  else if e.startsWith "T/" then some "terminalID"
+  else if e.startsWith "A/" then some "appID"
+  else none
+
 def parseReport (f : List String) : Option (Report String) :=
   match f with
   | ["key", tok, et] => some (.key tok (et.toInt?.getD 0))
@@ -203,9 +213,9 @@ def parseReport (f : List String) : Option (Report String) :=
   | ["focus", "out"] => some (.focus false)
   | ["paste", "start"] => some .pasteStart
   | ["paste", "end"] => some .pasteEnd
-  | ["reply", "inband"] => some .replyInband
+  | ["reply", "inband", a] => some (.replyInband (parseAnn a))
   | ["reply", "theme", m] => do pure (.replyTheme (← m.toNat?))
-  | ["reply", n] => some (.reply n)
+  | ["reply", n, a] => some (.reply n (parseAnn a))
   | ["trunc", n] => some (.truncated n)
   | _ => none
 
@@ -296,7 +306,12 @@ def step (d : D) (line : String) : D × String :=
           let got := (evsOf impl).filter fun e => userVisibleCanon e && e != "RD"
           let got := got.take (got.length - 2)   -- the sentinel's CAN and U+E000 keys
           let want := ((specEvents false d.reports.toList).map UEvent.canon).filter (· != "RD")
-          if got == want then "ok" else s!"FAIL events differ from the reports {firstDiff want got 0}"
+          if got != want then s!"FAIL events differ from the reports {firstDiff want got 0}"
+          else match specInternal d.reports.toList with
+            | none => "ok"
+            | some wantI =>
+              let gotI := (evsOf impl).filterMap internalName
+              if gotI == wantI then "ok" else s!"FAIL capability notifications differ from the replies {firstDiff wantI gotI 0}"
         else "ok"
       else s!"FAIL {impl}"
     (d, s!"{mc}\t{ic}\t{verdict}")
